@@ -70,6 +70,12 @@ def run_case(ctx, rng, idx):
     from hypergraphx.generation import configuration_model as cm
 
     h, edges = gen_h(rng)
+    undirected(ctx, rng, idx, h, edges, phase=0)
+
+
+def undirected(ctx, rng, idx, h, edges, phase):
+    from hypergraphx.generation import configuration_model as cm
+
     S0 = observe(h)
     n_steps = rng.choice([0, 1, 5, 50, 400])
     label = rng.choice(["edge", "stub"])
@@ -156,6 +162,14 @@ def run_case(ctx, rng, idx):
             ctx.distinct_add((tuple(edges), repr(sorted(kw.items()))))
     if idx % 100 < 2:
         ctx.sample({"edges": edges, "params": kw})
+    # the same object again after an in-place edit that keeps the number of hyperedges but changes sizes
+    # (a memo keyed on identity / counts only shows on this second evaluation)
+    if phase == 0:
+        from ..mutate import same_count_edit
+
+        if same_count_edit(rng, h):
+            ctx.event("re-evaluated-after-in-place-edit")
+            undirected(ctx, rng, idx, h, [tuple(e) for e in h.get_edges()], phase=1)
 
 
 def directed_case(ctx, rng, idx):
@@ -175,6 +189,14 @@ def directed_case(ctx, rng, idx):
         if len(edges) >= rng.randint(2, 10):
             break
     edges = sorted(edges)
+    if len(edges) >= 2 and rng.random() < 0.5:  # several hyperedges with an identical source (or target) set
+        s0, t0 = rng.choice(edges)
+        for _ in range(rng.randint(1, 3)):
+            rest = [x for x in labels if x not in s0]
+            if rest:
+                t = tuple(sorted(rng.sample(rest, rng.randint(1, min(3, len(rest))))))
+                edges.append((s0, t) if rng.random() < 0.5 else (t, s0) if not set(t) & set(s0) else (s0, t))
+        edges = sorted(set(edges))
     if len(edges) < 2:
         return
     h = hgx.DirectedHypergraph(edges)
